@@ -1,134 +1,264 @@
-// Command clustermc: explicit-state model checker over the real reconcilers (E1).
+// Command clustermc: explicit-state model checker over the real reconcilers (engine E1).
+//
+//	clustermc <PROP>                         run every scenario of the property's plan (one worker process each)
+//	clustermc <PROP> --replay <file>         re-execute one recorded trace without the explorer
+//	clustermc --worker <PROP> <SCENARIO> <out.json>
 package main
 
 import (
+	"encoding/json"
 	"fmt"
 	"os"
+	"os/exec"
+	"sort"
+	"strings"
+	"sync"
 	"time"
-
-	rolloutsv1beta1 "github.com/openkruise/rollouts/api/v1beta1"
 
 	"verifharness/lib"
 	"verifharness/sim"
 )
 
-func linear() {
-	w, err := sim.NewWorld()
-	if err != nil {
-		fmt.Println("HARNESS-ERROR", err)
-		os.Exit(2)
-	}
-	for _, c := range w.Ctls {
-		fmt.Println(c.Short, c.Name, c.Watches())
-	}
-	sc := &sim.Scenario{ID: "Q01", Kind: "CloneSet", Style: "partition", Replicas: 5,
-		Steps: []sim.StepSpec{{Replicas: "20%"}, {Replicas: "60%"}, {Replicas: "100%"}}}
-	if err := sc.Build(w); err != nil {
-		fmt.Println("HARNESS-ERROR build", err)
-		os.Exit(2)
-	}
-	w.Resync()
-	released := false
-	for step := 0; step < 400; step++ {
-		progressed := false
-		for _, c := range w.Ctls {
-			for _, k := range c.Queue.Ready() {
-				if c.Short == "D" {
-					w.SyncListers()
-				}
-				rr, log := w.Reconcile(c, k, sim.Fault{})
-				fmt.Printf("%3d %s(%s) calls=%d writes=%d err=%v requeue=%v panic=%v\n", step, c.Short, k.Name, rr.Calls, len(log), rr.Err, rr.Result.RequeueAfter, rr.Panic != nil)
-				for _, wr := range log {
-					fmt.Printf("      %s %s status=%v\n", wr.Verb, wr.Key, wr.Status)
-				}
-				progressed = true
-			}
-		}
-		for _, e := range w.Env {
-			if st := e.Steps(w); len(st) > 0 {
-				log, err := w.As("env", func() error { return e.Do(w, st[0]) })
-				fmt.Printf("%3d %s.%s writes=%d err=%v\n", step, e.Name(), st[0], len(log), err)
-				progressed = true
-			}
-		}
-		if progressed {
-			continue
-		}
-		ro := &rolloutsv1beta1.Rollout{}
-		w.Get(ro, sc.NS, "demo")
-		w.Get(ro, "ns1", "demo")
-		st := ""
-		if ro.Status.CanaryStatus != nil {
-			st = fmt.Sprintf("step=%d state=%s", ro.Status.CanaryStatus.CurrentStepIndex, ro.Status.CanaryStatus.CurrentStepState)
-		}
-		fmt.Printf("%3d QUIESCENT phase=%s %s now=%d\n", step, ro.Status.Phase, st, w.Now()-sim.T0)
-		if !released {
-			_, err := w.As("user", func() error { return w.UserSetImage(sc, "app:v2") })
-			fmt.Println("    user release v2:", err)
-			released = true
-			continue
-		}
-		if ro.Status.CanaryStatus != nil && ro.Status.CanaryStatus.CurrentStepState == rolloutsv1beta1.CanaryStepStatePaused {
-			_, err := w.As("user", func() error { return w.UserApprove(sc) })
-			fmt.Println("    user approve:", err)
-			continue
-		}
-		due := false
-		for _, c := range w.Ctls {
-			if c.Queue.NextDue() > 0 {
-				due = true
-			}
-		}
-		if due {
-			w.Tick()
-			fmt.Println("    tick")
-			continue
-		}
-		break
-	}
+type workerResult struct {
+	Scenario    string                   `json:"scenario"`
+	Nodes       int                      `json:"nodes"`
+	Keys        int                      `json:"keys"`
+	Transitions int64                    `json:"transitions"`
+	ImplCalls   int64                    `json:"impl_calls"`
+	Capped      bool                     `json:"capped"`
+	Caps        []string                 `json:"caps"`
+	Counters    map[string]int64         `json:"counters"`
+	Violations  []map[string]interface{} `json:"violations"`
+	Samples     []interface{}            `json:"samples"`
+	Terminals   map[string]int           `json:"terminals"`
+	WallS       float64                  `json:"wall_s"`
+	Watches     map[string][]string      `json:"watches"`
+	Error       string                   `json:"error,omitempty"`
 }
 
-func probe() {
+func buildWorld(sc *sim.Scenario, free bool) (*sim.World, error) {
 	w, err := sim.NewWorld()
 	if err != nil {
-		fmt.Println("HARNESS-ERROR", err)
-		os.Exit(2)
+		return nil, err
 	}
-	sc := &sim.Scenario{ID: "Q01", Kind: "CloneSet", Style: "partition", Replicas: 4,
-		Steps: []sim.StepSpec{{Replicas: "25%"}, {Replicas: "50%"}, {Replicas: "100%"}}}
 	if err := sc.Build(w); err != nil {
-		fmt.Println("HARNESS-ERROR build", err)
-		os.Exit(2)
+		return nil, err
 	}
 	w.Store.Log = nil
 	w.Resync()
-	w.FreeQueues = os.Getenv("FREEQ") != ""
-	r := lib.NewReport("PROBE")
-	cfg := sim.Config{Sc: sc, Actions: []string{"release", "approve"}, StateCap: 200000, Verbose: true, Monitors: []sim.Monitor{sim.PanicMonitor{}}}
-	if len(os.Args) > 2 {
-		cfg.Actions = append(cfg.Actions, os.Args[2:]...)
-		cfg.MaxUser = 1
+	if err := sim.Settle(w); err != nil {
+		return nil, err
 	}
+	w.FreeQueues = free
+	return w, nil
+}
+
+func worker(prop, scID, out string) {
+	thorough := os.Getenv("VERIF_TIER") == "thorough"
+	plan, ok := sim.Plans(thorough)[prop]
+	res := workerResult{Scenario: scID}
+	write := func() {
+		b, _ := json.MarshalIndent(res, "", " ")
+		_ = os.WriteFile(out, b, 0o644)
+	}
+	sc := sim.Scenarios(thorough)[scID]
+	if !ok || sc == nil {
+		res.Error = "unknown property or scenario"
+		write()
+		os.Exit(2)
+	}
+	t0 := time.VerifRealNow()
+	w, err := buildWorld(sc, plan.FreeQueues)
+	if err != nil {
+		res.Error = "build: " + err.Error()
+		write()
+		os.Exit(2)
+	}
+	res.Watches = map[string][]string{}
+	for _, c := range w.Ctls {
+		res.Watches[c.Short] = c.Watches()
+	}
+	r := lib.NewReport(prop)
+	cfg := sim.Config{Sc: sc, Actions: append([]string{"release", "approve"}, plan.Actions...), MaxUser: plan.MaxUser, Disturbances: plan.Disturbances,
+		MaxDisturb: plan.MaxDisturb, StateCap: plan.StateCap, Monitors: plan.Monitors(), InjectOncePerControlState: true, Verbose: os.Getenv("VERIF_VERBOSE") != ""}
+	budgetS := 150.0
+	if thorough {
+		budgetS = 3000
+	}
+	cfg.Deadline = t0.Add(time.Duration(budgetS * float64(time.Second)))
 	ex := sim.NewExplorer(w, cfg, r)
-	t0 := time.Now()
-	if os.Getenv("PROJ") != "" {
-		ex.Proj = map[string]map[string]bool{}
+	ex.Run(sim.Budget{User: plan.MaxUser, Disturb: plan.MaxDisturb})
+	res.Nodes, res.Keys, res.Transitions, res.ImplCalls, res.Capped = ex.NodesCount(), ex.DistinctKeys(), ex.Transitions, ex.ImplCalls, ex.Capped
+	res.Counters, res.Terminals = ex.Counters, ex.Terminals
+	res.Violations = r.RawViolations()
+	res.Caps = r.Caps()
+	res.Samples = ex.SampleTraces(3)
+	res.WallS = time.VerifRealNow().Sub(t0).Seconds()
+	write()
+}
+
+func parent(prop string) {
+	thorough := os.Getenv("VERIF_TIER") == "thorough"
+	plan, ok := sim.Plans(thorough)[prop]
+	if !ok {
+		fmt.Println("HARNESS-ERROR no E1 plan for", prop)
+		os.Exit(2)
 	}
-	ex.Run(sim.Budget{User: cfg.MaxUser})
-	for k, v := range ex.Proj {
-		fmt.Printf("  proj %-70s %d\n", k, len(v))
+	r := lib.NewReport(prop)
+	outDir := "/verif/.cache/e1/" + prop
+	_ = os.MkdirAll(outDir, 0o755)
+	var mu sync.Mutex
+	var wg sync.WaitGroup
+	results := map[string]*workerResult{}
+	harnessErr := false
+	for _, scID := range plan.Scenarios {
+		wg.Add(1)
+		go func(scID string) {
+			defer wg.Done()
+			out := fmt.Sprintf("%s/%s.json", outDir, scID)
+			_ = os.Remove(out)
+			cmd := exec.Command(os.Args[0], "--worker", prop, scID, out)
+			cmd.Dir = "/repo"
+			logf, _ := os.Create(fmt.Sprintf("%s/%s.log", outDir, scID))
+			cmd.Stdout, cmd.Stderr = logf, logf
+			err := cmd.Run()
+			logf.Close()
+			var res workerResult
+			b, rerr := os.ReadFile(out)
+			if rerr == nil {
+				_ = json.Unmarshal(b, &res)
+			}
+			mu.Lock()
+			defer mu.Unlock()
+			if rerr != nil || res.Error != "" {
+				harnessErr = true
+				fmt.Printf("HARNESS-ERROR worker %s/%s: %v %s (log %s/%s.log)\n", prop, scID, err, res.Error, outDir, scID)
+				return
+			}
+			results[scID] = &res
+		}(scID)
 	}
-	fmt.Printf("nodes=%d keys=%d transitions=%d capped=%v wall=%v\n", ex.NodesCount(), ex.DistinctKeys(), ex.Transitions, ex.Capped, time.Since(t0))
+	wg.Wait()
+	if harnessErr {
+		os.Exit(2)
+	}
+	var table []map[string]interface{}
+	counters := map[string]int64{}
+	ids := make([]string, 0, len(results))
+	for id := range results {
+		ids = append(ids, id)
+	}
+	sort.Strings(ids)
+	for _, id := range ids {
+		res := results[id]
+		r.AddGraph(int64(res.Keys), res.Transitions, res.ImplCalls)
+		r.AddEval(res.Transitions)
+		for _, c := range res.Caps {
+			r.NotExhaustive(c)
+		}
+		for k, v := range res.Counters {
+			counters[k] += v
+		}
+		for _, v := range res.Violations {
+			sig, _ := v["signature"].(string)
+			det, _ := v["detail"].(string)
+			n := 1
+			if f, ok := v["occurrences"].(float64); ok {
+				n = int(f)
+			}
+			for i := 0; i < n; i++ {
+				r.Violate(sig, det, v["replay"])
+			}
+		}
+		for _, s := range res.Samples {
+			r.Sample(map[string]interface{}{"scenario": id, "trace": s})
+		}
+		for k := range res.Terminals {
+			r.Outcome(id + "/terminal/" + k)
+		}
+		table = append(table, map[string]interface{}{"scenario": id, "states": res.Keys, "nodes_with_budget": res.Nodes, "transitions": res.Transitions,
+			"real_reconciles": res.ImplCalls, "capped": res.Capped, "wall_s": res.WallS, "terminal_classes": len(res.Terminals)})
+		for i := 0; i < res.Keys; i++ {
+			// distinct states are the distinct non-trivial cases of an explicit-state search
+		}
+		r.NontrivialN(id, res.Keys)
+	}
+	r.Extra["scenarios"] = table
+	r.Extra["monitor_antecedents"] = counters
+	r.Extra["deviation_alphabet"] = plan.Actions
+	r.Extra["disturbances"] = plan.Disturbances
+	r.Extra["bounds"] = map[string]interface{}{"user_deviations": plan.MaxUser, "disturbances": plan.MaxDisturb, "state_cap_per_scenario": plan.StateCap,
+		"interleavings_of_R_B_T_D_env_gc_tick": "unbounded (BFS with state matching)", "deviation_points": "one per abstract control state and action"}
+	if len(ids) > 0 {
+		r.Extra["controllers_wired_by_real_setup_code"] = results[ids[0]].Watches
+	}
+	for k, v := range counters {
+		if v == 0 && strings.HasPrefix(k, prop) {
+			r.Warn("monitor antecedent never fired: " + k)
+		}
+	}
+	r.Rule = "explicit-state BFS over a simulated cluster; every transition is one call of a real Reconcile (Rollout, BatchRelease, TrafficRouting, advanced Deployment controllers wired by the repository's own setup code), " +
+		"one unit step of a native-controller reference model, a garbage-collection step, a virtual-clock tick or a budgeted user action / crash / API fault; monitors run after every single API write and on every state; " +
+		"distinct = distinct canonical states"
+	r.Assumptions = []string{
+		"reads are linearizable (no informer lag); reconciles are atomic except for injected crashes / faults at any API call",
+		"native workload controllers are reference models (trusted base), permissive about partial progress",
+		"safety mode: any controller may be woken at any time (spurious wake-ups are legal for level-triggered controllers), queue contents are not part of the state",
+	}
+	r.TrustedBase = []string{"API-server shim (generation, status subresource, finalizers, GC)", "CloneSet / Deployment / ReplicaSet reference models", "traffic oracle"}
+	r.Finish()
+}
+
+func replay(prop, file string) {
+	b, err := os.ReadFile(file)
+	if err != nil {
+		fmt.Println("HARNESS-ERROR", err)
+		os.Exit(2)
+	}
+	var f struct {
+		Signature string `json:"signature"`
+		Replay    struct {
+			Scenario string   `json:"scenario"`
+			Trace    []string `json:"trace"`
+		} `json:"replay"`
+	}
+	if err := json.Unmarshal(b, &f); err != nil {
+		fmt.Println("HARNESS-ERROR", err)
+		os.Exit(2)
+	}
+	thorough := os.Getenv("VERIF_TIER") == "thorough"
+	plan := sim.Plans(thorough)[prop]
+	sc := sim.Scenarios(thorough)[f.Replay.Scenario]
+	if sc == nil {
+		sc = sim.Scenarios(!thorough)[f.Replay.Scenario]
+	}
+	w, err := buildWorld(sc, plan.FreeQueues)
+	if err != nil {
+		fmt.Println("HARNESS-ERROR build:", err)
+		os.Exit(2)
+	}
+	r := lib.NewReport(prop)
+	cfg := sim.Config{Sc: sc, Monitors: plan.Monitors()}
+	ex := sim.NewExplorer(w, cfg, r)
+	fmt.Printf("replaying %d transitions of scenario %s on the real controllers\n", len(f.Replay.Trace), sc.ID)
+	ex.Replay(f.Replay.Trace, true)
+	if r.HasViolation(f.Signature) {
+		fmt.Printf("REPLAY verdict: VIOLATION reproduced (%s)\n", f.Signature)
+		os.Exit(1)
+	}
+	fmt.Printf("REPLAY verdict: recorded signature %s NOT reproduced\n", f.Signature)
 }
 
 func main() {
-	if len(os.Args) > 1 && os.Args[1] == "linear" {
-		linear()
-		return
+	switch {
+	case len(os.Args) == 5 && os.Args[1] == "--worker":
+		worker(os.Args[2], os.Args[3], os.Args[4])
+	case len(os.Args) == 4 && os.Args[2] == "--replay":
+		replay(os.Args[1], os.Args[3])
+	case len(os.Args) == 2:
+		parent(os.Args[1])
+	default:
+		fmt.Println("usage: clustermc <PROP> [--replay file]")
+		os.Exit(2)
 	}
-	if len(os.Args) > 1 && os.Args[1] == "probe" {
-		probe()
-		return
-	}
-	fmt.Println("usage: clustermc linear")
 }
